@@ -11,8 +11,10 @@ import (
 	"crypto/rand"
 	"crypto/rsa"
 	"crypto/x509"
+	"encoding/asn1"
 	"encoding/json"
 	"fmt"
+	"math/big"
 	"runtime/debug"
 	"sort"
 	"strings"
@@ -655,8 +657,23 @@ func (s *scripted) GenerateSignature(ctx context.Context, req *pf.GenerateSignat
 		}
 	}
 	var sig []byte
-	if _, ok := s.edit("sig-wrong-encoding"); ok {
+	if e, ok := s.edit("sig-wrong-encoding"); ok {
 		sig = wrongEncoding(key, msg)
+		if _, isEC := key.(*ecdsa.PrivateKey); isEC && e.N%3 != 0 {
+			// well-formed DER SEQUENCE{INTEGER, INTEGER} whose integers do not fit the curve (a host
+			// that "helpfully" converts DER to r||s must not trip over them): 2^(8k) and a k+9 byte value
+			k := (key.Public().(*ecdsa.PublicKey).Curve.Params().BitSize + 7) / 8
+			r := new(big.Int).Lsh(big.NewInt(1), uint(8*k))
+			v := new(big.Int).Lsh(big.NewInt(int64(3+e.N%7)), uint(8*(k+8)))
+			if e.N%3 == 2 {
+				r, v = v, big.NewInt(1)
+			}
+			der, err := asn1.Marshal(struct{ R, S *big.Int }{r, v})
+			if err != nil {
+				panic(err)
+			}
+			sig = der
+		}
 	} else {
 		sig = envb.RawSign(key, msg)
 	}
